@@ -81,22 +81,33 @@ Definition holds (c : case) : bool :=
   | CLoad _ _ => true
   end.
 
-(* finding classes: defined in C17/Classes.v (send_cls, recv_cls, round_cls), where it is also
-   proved that class 0 implies the guards of the theorems *)
+(* finding classes: defined in C17/Classes.v (send_cls, recv_cls, round_cls: the OPEN class 1, for
+   which it is proved there that class 0 implies the guards of the theorems; *_cls_reg adds
+   recognition of classes 2 and 3, repaired by 16472e5d and 09ff19a1 — findings C17-F2 / C17-F3 being
+   closed, the driver reports a case that fails the spec inside them as VIOLATION with that input) *)
 Definition cls (c : case) : nat :=
   match c with
   | CSend a av f _ => send_cls (acs_of a) f av
-  | CRecv a allow xml ws _ => recv_cls (acs_of a) (recv_input xml ws)
-  | CRound a av f _ _ _ => round_cls (acs_of a) f av
+  | CRecv a allow xml ws _ => recv_cls_reg (acs_of a) (recv_input xml ws)
+  | CRound a av f _ _ _ => round_cls_reg (acs_of a) f av
   | CLoad _ _ => 0
   end.
 
 Definition run := run_cases agrees holds cls.
 
+(* (wire attributes the model sends, result of the model NOW, results of the pre-16472e5d (v0) and
+    pre-09ff19a1 (v1) models, converter the model loads, holds, cls) *)
 Definition explain (c : case) :=
   match c with
-  | CSend a av f obs => (from_local (acs_of a) av f, None, None, holds c, cls c)
-  | CRecv a allow xml ws obs => (None, Some (to_local (acs_of a) allow (recv_input xml ws)), None, holds c, cls c)
-  | CRound a av f allow xml obs => (from_local (acs_of a) av f, roundtrip (acs_of a) av f allow xml, None, holds c, cls c)
-  | CLoad s obs => (None, None, Some (from_dict s), holds c, cls c)
+  | CSend a av f obs => (from_local (acs_of a) av f, None, None, None, holds c, cls c)
+  | CRecv a allow xml ws obs =>
+      (None, Some (to_local (acs_of a) allow (recv_input xml ws)),
+       Some (to_local_v0 (acs_of a) allow (recv_input xml ws), to_local_v1 (acs_of a) allow (recv_input xml ws)),
+       None, holds c, cls c)
+  | CRound a av f allow xml obs =>
+      (from_local (acs_of a) av f, roundtrip (acs_of a) av f allow xml,
+       match roundtrip_v0 (acs_of a) av f allow xml, roundtrip_v1 (acs_of a) av f allow xml with
+       | Some x, Some y => Some (x, y) | _, _ => None end,
+       None, holds c, cls c)
+  | CLoad s obs => (None, None, None, Some (from_dict s), holds c, cls c)
   end.
